@@ -23,7 +23,13 @@ fn matches(col: &[Vec<f64>], got: f64, g: &mut Sm64) -> (bool, serde_json::Value
             // sensitivity from the matching candidate of the perturbed evaluation, if it has one
             let sens = epc.candidates.get(i).map(|p| (p - e0.candidates.get(i).cloned().unwrap_or(*p)).abs()).unwrap_or(0.0);
             let tol = 4e-3 * cand.abs() + 100.0 * sens + 1e-3;
-            let err = if cand.is_nan() && got.is_nan() { 0.0 } else { (got - cand).abs() / tol };
+            let err = if (cand.is_nan() && got.is_nan()) || (cand.is_infinite() && got == *cand) {
+                0.0
+            } else if cand.is_infinite() || !tol.is_finite() {
+                f64::INFINITY
+            } else {
+                (got - cand).abs() / tol
+            };
             if err < best {
                 best = err;
             }
